@@ -115,7 +115,7 @@ def build_finish(fns):
 
 def build_accumulate(fns):
     g = modeb.CFG(mir.find_fn(fns, r"file_deduplication::.*process_chunks::\{closure#0\}$"))
-    ext = [b for b in g.blocks_calling(r"Vec::<\(DataHash, usize\)>::extend$|as Extend<\(DataHash, usize\)>>::extend$")]
+    ext = [b for b in g.blocks_calling(r"as Extend<\(DataHash, usize\)>>::extend")]
     resid = g.blocks_calling(r"FromResidual<.*>>::from_residual$")
     if not ext:
         raise LookupError("process_chunks no longer extends the chunk list")
@@ -133,7 +133,7 @@ def build_accumulate(fns):
     for i, p in enumerate(ps):
         ret = p.store.get("_0")
         ok = ret is not None and ret.kind == "tuple" and len(ret.items) == 2 and ret.items[0].kind == "opaque" and re.search(r"_2\.0$", ret.items[0].t) is not None \
-            and ret.items[1].kind == "bv" and "len(" in ret.items[1].t
+            and ret.items[1].kind == "bv" and re.search(r"\.len_", ret.items[1].t) is not None
         _structural(sc, "the appended element is (chunk.hash, chunk.data.len()) [path %d]" % i, ok)
     return [sc]
 
